@@ -358,6 +358,16 @@ def s_round_even(a):
   return z3.ToReal(z3.If(d < half, f, z3.If(d > half, f + 1, z3.If(f % 2 == 0, f, f + 1))))
 
 
+def s_round_away(a):
+  """round half away from zero, Real-sorted"""
+  if not is_z3(a):
+    a = Fraction(a)
+    r = math.floor(abs(a) + Fraction(1, 2))
+    return Fraction(r if a >= 0 else -r)
+  half = z3.RealVal('1/2')
+  return z3.If(a >= 0, z3.ToReal(z3.ToInt(a + half)), -z3.ToReal(z3.ToInt(-a + half)))
+
+
 def s_idiv(a, b):
   """C-style integer division (truncation toward zero)"""
   if not is_z3(a) and not is_z3(b):
